@@ -166,7 +166,7 @@ fn one_history(run: &Run, case: u64) {
 
 pub fn run(tier: Tier, replay: Option<Value>) -> i32 {
     let run = Run::new("C17", "exploration", tier, replay);
-    run.par_cases(tier.pick(100, 1200), super::threads().min(8), |c| one_history(&run, c));
+    run.par_cases(tier.pick(100, 4000), super::threads().min(8), |c| one_history(&run, c));
     run.finish(
         "histories over {tree mutations, backup(random options), backup killed before its n-th write, delete of a random subset, gc} are executed in lock-step from the same on-disk source states into a first archive (current-thread tokio runtime) and into one (thorough: two) replica archives on multi-thread runtimes with 2 or 8 workers and random yields/sleeps before every storage operation; after every step the complete directory trees must be byte-identical, BANDHEAD/BANDTAIL compared as JSON without start_time/end_time. Within one process every HashMap instance already gets its own random seed, so hash-order dependence shows up without a second process. Distinct = history text with >= 3 archive operations.",
         &["timestamps in heads and tails are the only allowed difference", "a separate-process replay was not added (per-instance hash seeds make it redundant)"],
